@@ -146,6 +146,7 @@ pub static ENUMS: &[EnumEntry] = enum_table! {
 static SCHEMA: OnceLock<Result<Schema, String>> = OnceLock::new();
 
 fn schema(env: &Env) -> &'static Result<Schema, String> {
+    hand_written_debug(&env.repo);
     SCHEMA.get_or_init(|| Schema::from_proto_dir(&env.repo.join("proto")))
 }
 
@@ -364,6 +365,10 @@ fn check_debug_fields(schema: &Schema, mon: &mut Monitor) {
     mon.facet("static:debug-fields");
     for e in MESSAGES {
         let Some(def) = schema.messages.get(e.proto) else { continue };
+        if is_hand_written_debug(e.proto) {
+            mon.facet(&format!("debug-is-hand-written:{}:not-read", short(e.proto)));
+            continue;
+        }
         mon.eval();
         mon.facet("messages-debug-checked");
         let dbg = match probe(|| (e.debug_default)()) {
@@ -1256,8 +1261,43 @@ fn cmp_scalar(schema: &Schema, ty: &Ty, want: &wire::WVal, got: &Dbg) -> Result<
 
 /// `want`: what the independent decoder reads from the bytes (not normalised); `got`: Debug of
 /// the struct prost decoded from the same bytes
+/// Proto message types whose Rust struct carries `#[prost(skip_debug)]`, i.e. whose `Debug` is hand-written (prost
+/// derives `Debug` unless told to skip it, so a second impl is possible only with that attribute). What such a
+/// `Debug` prints is not the wire content field by field; the decoded value of those types is then not read
+/// through `Debug` (the decode / re-encode differential and the normal-form comparison still apply to them).
+static HAND_WRITTEN_DEBUG: std::sync::OnceLock<BTreeSet<String>> = std::sync::OnceLock::new();
+
+fn hand_written_debug(repo: &std::path::Path) -> &'static BTreeSet<String> {
+    HAND_WRITTEN_DEBUG.get_or_init(|| {
+        let mut out = BTreeSet::new();
+        let src = std::fs::read_to_string(repo.join("rust/ommx/src/ommx.v1.rs")).unwrap_or_default();
+        let mut pending = false;
+        for line in src.lines() {
+            let l = line.trim();
+            if l.starts_with("#[prost(") && l.contains("skip_debug") && !l.contains("tag") {
+                pending = true;
+            } else if let Some(rest) = l.strip_prefix("pub struct ") {
+                if pending {
+                    out.insert(rest.split(|c: char| !c.is_alphanumeric() && c != '_').next().unwrap_or("").to_string());
+                }
+                pending = false;
+            } else if l.starts_with("pub enum ") || l.starts_with("pub mod ") {
+                pending = false;
+            }
+        }
+        out
+    })
+}
+
+fn is_hand_written_debug(proto_name: &str) -> bool {
+    HAND_WRITTEN_DEBUG.get().map_or(false, |s| s.contains(short(proto_name)))
+}
+
 pub fn cmp_decoded(schema: &Schema, name: &str, want: &WMsg, got: &Dbg) -> Option<ValueDiff> {
     use wire::{WField, WVal};
+    if is_hand_written_debug(name) {
+        return None;
+    }
     let def = schema.msg(name);
     let diff = |field: &str, what: String| Some(ValueDiff { owner: name.to_string(), field: field.to_string(), what });
     let fields: &[(String, Dbg)] = match got {
